@@ -250,6 +250,9 @@ pub struct Shown {
     pub describe: String,
     /// (amount, symbol, symbol resolves to the stored unit) for quantity values
     pub parts: Option<(AmountT, String, fn(&str, &str) -> bool, String)>,
+    /// what `.to_string()` gives when called on the value itself (method-call syntax
+    /// on the concrete type, so that an inherent `to_string` would be the one called)
+    pub to_string: Option<String>,
 }
 
 fn prim(spec: &Spec, v: &dyn fmt::Display) -> Option<String> {
@@ -333,6 +336,7 @@ where
         expect_bytes,
         describe,
         parts: Some((a, symbol, resolves::<Q>, u.name())),
+        to_string: None,
     }
 }
 
@@ -351,6 +355,7 @@ where
         expect_bytes: e,
         describe: format!("unit '{}' of {}", symbol, TABLE[ty].name),
         parts: None,
+        to_string: None,
     }
 }
 
@@ -359,6 +364,8 @@ pub struct TypeEntry {
     pub n_units: fn() -> usize,
     qty: fn(usize, usize, Amt, &Spec) -> Shown,
     unit: fn(usize, usize, &Spec) -> Shown,
+    /// `.to_string()` of the value, called on the concrete type
+    to_string: fn(usize, Amt) -> String,
 }
 
 fn count_units<Q: Quantity>() -> usize {
@@ -367,7 +374,19 @@ fn count_units<Q: Quantity>() -> usize {
 
 macro_rules! entry {
     ($name:literal, $q:ty) => {
-        TypeEntry { name: $name, n_units: count_units::<$q>, qty: qty_shown::<$q>, unit: unit_shown::<$q> }
+        TypeEntry {
+            name: $name,
+            n_units: count_units::<$q>,
+            qty: qty_shown::<$q>,
+            unit: unit_shown::<$q>,
+            to_string: |unit, a| {
+                let n = <$q as Quantity>::iter_units().count();
+                let u = <$q as Quantity>::iter_units().nth(unit % n).unwrap();
+                let q: $q = <$q as Quantity>::new(amt::to_amount(a), u);
+                #[allow(clippy::to_string_in_format_args)]
+                q.to_string()
+            },
+        }
     };
 }
 
@@ -429,7 +448,10 @@ where
         format!("{} {}", p, ps)
     };
     let e = format!("{} / {}", term, per);
+    #[allow(clippy::to_string_in_format_args)]
+    let rate_text = std::panic::catch_unwind(std::panic::AssertUnwindSafe(|| r.to_string())).ok();
     Shown {
+        to_string: rate_text,
         value: Box::new(r),
         expect: Some(e.clone()),
         expect_bytes: Some(e),
@@ -490,7 +512,12 @@ pub fn shown(what: &What, spec: &Spec) -> Shown {
     match *what {
         What::Qty { ty, unit, amount } => {
             let ty = ty % TABLE.len();
-            (TABLE[ty].qty)(ty, unit, amount, spec)
+            let mut sh = (TABLE[ty].qty)(ty, unit, amount, spec);
+            if spec.is_plain() {
+                let f = TABLE[ty].to_string;
+                sh.to_string = std::panic::catch_unwind(move || f(unit, amount)).ok();
+            }
+            sh
         }
         What::Unit { ty, unit } => {
             let ty = ty % TABLE.len();
@@ -514,6 +541,7 @@ pub fn shown(what: &What, spec: &Spec) -> Shown {
                 describe: format!("pair [{}] [{}] in template {}", x.describe, y.describe, form % PAIR_FORMS),
                 value: Box::new(PairDisplay { a: x.value, b: y.value, form }),
                 parts: None,
+                to_string: None,
             }
         }
     }
